@@ -135,6 +135,23 @@ impl Monitor for C12 {
                     ctx.rep.count("h2:in-flight-marker-present-after-return");
                 }
             }
+            // never firing, with a provider that queries the cache from sort_candidates and abandons
+            // some of those queries (requests are dropped although nothing was cancelled): the
+            // outcome must be a verdict - the baseline's - never Cancelled
+            if !matches!(mode, Mode::Sync) && h % 4 == 0 {
+                let opts = SolveOpts { pause_mask: PAUSE_ALL, ..base_opts.clone() };
+                let mut sess = crate::run::Session::new(u.clone(), &opts);
+                sess.prov().reentrant_sort.set(true);
+                sess.prov().abandon.set(true);
+                let out = sess.solve(&c.p);
+                ctx.rep.evaluations += 1;
+                ctx.rep.count("never-firing-runs-with-an-impatient-re-entrant-provider");
+                match (&out, base.verdict()) {
+                    (Outcome::Cancelled(_), _) => ctx.violation("Cancelled without a signal", format!("mode {:?}, provider abandons re-entrant cache queries", mode)),
+                    (o, Some(v)) if o.verdict().is_some() && o.verdict() != Some(v) => ctx.violation("never-firing signal changed the result", format!("mode {:?}, provider abandons re-entrant cache queries", mode)),
+                    _ => {}
+                }
+            }
             // never firing: polling has no effect on the result
             if matches!(mode, Mode::Sync) {
                 let opts = SolveOpts { cancel: Cancel::Sticky(usize::MAX), ..base_opts.clone() };
